@@ -89,7 +89,8 @@ Programs ==
     [] Universe = "selectors" -> SelPrograms((RawSels \ {Raw(<<48, 49, 58>>, TRUE)}) \cup IntSels) \cup {Q("$", <<Seg(FALSE, <<SIndex(1), Raw(<<>>, FALSE)>>)>>)}
     [] Universe = "pairs" -> {F(EAnd(x, y)) : x \in Good \cup Bad, y \in Good \cup Bad} \cup {F(EOr(ENot(x), y)) : x \in Good \cup Bad, y \in Good \cup Bad}
 
-StyleSeq == << StdStyle, [StdStyle EXCEPT !.q = 34, !.sp = <<32>>, !.paren = "full"], [StdStyle EXCEPT !.sp = <<9, 10>>, !.dot = TRUE, !.num = "Epos"] >>
+StyleSeq == << StdStyle, [StdStyle EXCEPT !.q = 34, !.sp = <<32>>, !.paren = "full"], [StdStyle EXCEPT !.sp = <<9, 10>>, !.dot = TRUE, !.num = "Epos"],
+              [StdStyle EXCEPT !.words = TRUE, !.sp = <<32>>] >>      \* and / or / not for && / || / !: the same typing rules under the other spelling
 
 Init == prog \in Programs /\ verdict = "?"
 Judge == /\ verdict = "?"
